@@ -48,7 +48,8 @@ type ctx struct {
 	runErrs  int
 	ntrans   int
 	deferred []func()
-	forceCoq bool // thorough tier: push this (large) case through coqc regardless of the size limit
+	expect   []string // adversarial programs with a known result: the values the chunk must return
+	forceCoq bool     // thorough tier: push this (large) case through coqc regardless of the size limit
 }
 
 func main() {
@@ -194,6 +195,16 @@ func (c *ctx) processPre(in input, src, name, class string, kf []string, setup f
 		}
 		if res.Err != "" && !res.Over {
 			c.runErrs++
+		}
+		if c.expect != nil {
+			obs["results"] = res.Results
+			if res.Err != "" || strings.Join(res.Results, ",") != strings.Join(c.expect, ",") {
+				obs["expected"] = c.expect
+				obs["run_error"] = res.Err
+				id := c.w.Add(lib.Case{Coq: dummy, Input: in, Observed: obs, KF: kf, Class: class + "/wrong-result"})
+				c.w.GoFail(id, fmt.Sprintf("compiled code around a multi-word group computed a wrong result: got %v (%s), want %v", res.Results, trunc(res.Err, 80), c.expect))
+				return
+			}
 		}
 		ids, per, total = tr.grouped()
 	}
